@@ -249,3 +249,44 @@ def replay_doc(doc):
     got = shape(c.parse(doc))
     want = ref_tree(doc)
     return ("parse(" + repr(doc) + ")", got != want, f"section/list structure {got} differs from the nesting model {want}")
+
+
+# ---------------------------------------------------------------- line-start syntax inside re-parsed argument lists
+def begline_nesting(o0: bool, o1: bool, o2: bool, o3: bool, o4: bool, o5: bool) -> bool:
+    """Lists and headings are line-start syntax; while the arguments of a template / link are re-parsed (magic_fn, inside
+    `with ctx.begline_disabled:`) a line start must not be interpreted, however the re-parses nest: for every well-nested
+    sequence of enters/exits the switch is on exactly when no block is open."""
+    reset_begline(ctx)
+    mgr = ctx.begline_disabled
+    depth = 0
+    for enter in (o0, o1, o2, o3, o4, o5):
+        if enter:
+            mgr.__enter__()
+            depth += 1
+        elif depth > 0:
+            mgr.__exit__(None, None, None)
+            depth -= 1
+        if ctx.begline_enabled != (depth == 0):
+            return False
+    return True
+
+
+NEST_DOCS = [
+    ("* a {{q|{{l|en|x}}\nmore}}\n* b", ("ROOT", [("LIST", [("LIST_ITEM", [("TEMPLATE", [])]), ("LIST_ITEM", [])])])),
+    ("==h==\n* a {{q|[[x]]\ny}}\n===k===\nt", ("ROOT", [("LEVEL2", [("LIST", [("LIST_ITEM", [("TEMPLATE", [])])]), ("LEVEL3", [])])])),
+    ("# a [[x|{{u|v}}\n# z]]\n# b", ("ROOT", [("LIST", [("LIST_ITEM", [("LINK", [])]), ("LIST_ITEM", [])])])),
+]
+
+
+def _kinds(n):
+    return (n.kind.name, [_kinds(c) for c in n.children if isinstance(c, WikiNode)])
+
+
+def replay_begline_nesting(o0, o1, o2, o3, o4, o5):
+    w = Wtp(quiet=True, quiet_output=True)
+    w.start_page("T")
+    for doc, want in NEST_DOCS:
+        got = _kinds(w.parse(doc))
+        if got != want:
+            return ("parse(" + repr(doc) + ")", True, f"section/list structure {got} (a line start inside the arguments of a construct was interpreted after a nested construct ended); expected {want}")
+    return ("parse(" + repr(NEST_DOCS[0][0]) + ")", False, "")
